@@ -783,11 +783,16 @@ class Person(object):
                     # braces nested deeper than the scanner follows them:
                     # the token has no case (a name is never rejected)
                     return False
+                previous = None
                 for char, brace_level in tokens:
                     if brace_level == 0 and char.isalpha():
                         return char.islower()
-                    elif brace_level == 1 and char.startswith('\\'):
+                    # a special character directly follows the brace that opens
+                    # it; any other group is skipped, as in BibTeX
+                    elif (brace_level == 1 and char.startswith('\\')
+                            and previous == ('{', 1)):
                         return special_char_islower(char)
+                    previous = (char, brace_level)
             return False
 
         def special_char_islower(special_char):
